@@ -3,8 +3,10 @@ AST rewrite of the function's current source, with
 
     entry     : run the code before the loop, hand the state to the contract (Inv must hold), stop
     iter      : havoc every variable assigned in the loop, assume Inv, run the body ONCE on an
-                arbitrary element; at the back edge (end of body / `continue`) hand the state to the
-                contract (Inv must hold again) and stop; `break`, `return`, `raise` leave the loop
+                arbitrary element (or, if the contract asks for it, a stated number of consecutive
+                rounds - used for frame obligations "what round n stored is not touched by round n+1");
+                at each back edge (end of body / `continue`) hand the state to the contract (Inv must
+                hold again), after the last one stop; `break`, `return`, `raise` leave the loop
                 with Python's own semantics and the rest of the function runs
     exhausted : havoc, assume Inv, bind the loop target to the last element, run `else:` and the rest
 
@@ -85,7 +87,7 @@ class _ReplaceContinue(ast.NodeTransformer):
         return node
 
     def visit_Continue(self, node):
-        return ast.parse("__vk.back_edge(locals())\nraise __vk.Stop()").body
+        return ast.parse("__vk.back_edge(locals())\ncontinue").body
 
 
 def _stmts(src):
@@ -115,7 +117,8 @@ def cut(fn, loop=0):
     flat = []
     for b in body:
         flat.extend(b if isinstance(b, list) else [b])
-    back = _stmts("__vk.back_edge(locals())\nraise __vk.Stop()")
+    back = _stmts("__vk.back_edge(locals())")
+    stop = _stmts("raise __vk.Stop()")  # else-clause of the cut loop: every requested round reached its back edge
 
     new = []
     if isinstance(node, ast.For):
@@ -126,16 +129,16 @@ def cut(fn, loop=0):
         new += _stmts(f"try:\n    {name} = __vk.havoc({name!r}, {name})\nexcept NameError:\n    {name} = __vk.havoc({name!r}, None)")
     new += _stmts("__vk.assume_inv(locals())")
     if isinstance(node, ast.For):
-        one = ast.For(target=copy.deepcopy(node.target), iter=ast.parse("__vk.one(__vk_it)").body[0].value, body=flat + back, orelse=[], type_comment=None)
+        one = ast.For(target=copy.deepcopy(node.target), iter=ast.parse("__vk.one(__vk_it)").body[0].value, body=flat + back, orelse=stop, type_comment=None)
         ifnode = ast.If(test=ast.parse('__vk.mode == "iter"').body[0].value, body=[one], orelse=[])
         last = ast.Assign(targets=[copy.deepcopy(node.target)], value=ast.parse("__vk.last(__vk_it)").body[0].value)
         ifnode.orelse = [last] + copy.deepcopy(node.orelse)
         new.append(ifnode)
     else:
-        one = ast.For(target=ast.Name(id="__vk_once", ctx=ast.Store()), iter=ast.parse("(0,)").body[0].value, body=flat + back, orelse=[], type_comment=None)
         cond_t = ast.Expr(value=ast.Call(func=ast.parse("__vk.assume_cond").body[0].value, args=[copy.deepcopy(node.test), ast.Constant(True)], keywords=[]))
         cond_f = ast.Expr(value=ast.Call(func=ast.parse("__vk.assume_cond").body[0].value, args=[copy.deepcopy(node.test), ast.Constant(False)], keywords=[]))
-        ifnode = ast.If(test=ast.parse('__vk.mode == "iter"').body[0].value, body=[cond_t, one], orelse=[cond_f] + copy.deepcopy(node.orelse))
+        one = ast.For(target=ast.Name(id="__vk_once", ctx=ast.Store()), iter=ast.parse("__vk.rounds()").body[0].value, body=[cond_t] + flat + back, orelse=stop, type_comment=None)
+        ifnode = ast.If(test=ast.parse('__vk.mode == "iter"').body[0].value, body=[one], orelse=[cond_f] + copy.deepcopy(node.orelse))
         new.append(ifnode)
 
     class _Swap(ast.NodeTransformer):
@@ -222,7 +225,13 @@ class Helper:
         pass
 
     def one(self, it):
+        """for-loops: the elements the cut body is run on (default: one arbitrary element)"""
         return (self.element(it),)
+
+    def rounds(self):
+        """while-loops: how many consecutive rounds of the body are run from the havocked state (default one);
+        the loop condition is assumed before each round, the back edge is handed to the contract after each"""
+        return (0,)
 
     def element(self, it):
         raise NotImplementedError
